@@ -314,11 +314,11 @@ def r05_5(chk: Check):
 
 
 def rules(chk: Check) -> None:
-    r05_1(chk)
-    r05_23(chk)
-    r05_4(chk)
-    r05_5(chk)
+    for grp in (r05_1, r05_23, r05_4, r05_5):
+        chk.stage(grp, chk)
     # R05.6: the matching handed back at the LTE velocity is the exact one: the re-evaluation of the upper end of the v+ bracket (cs^2 at T+ instead
     # of Tn) is entered on a sign change between the very points it then brackets, so it is not silently skipped in favour of the template fallback
     from .shared import guarded_brackets
-    guarded_brackets(chk, "R05.6", ["hydrodynamics:Hydrodynamics.findMatching", "hydrodynamics:Hydrodynamics.findvwLTE"], floor=2)
+    from .shared import per_object_state
+    chk.stage(per_object_state, chk, "R05.6", ("Hydrodynamics", "HydrodynamicsTemplateModel", "Thermodynamics", "FreeEnergy", "InterpolatableFunction"))
+    chk.stage(guarded_brackets, chk, "R05.6", ["hydrodynamics:Hydrodynamics.findMatching", "hydrodynamics:Hydrodynamics.findvwLTE"], floor=2)
